@@ -28,12 +28,8 @@ def findings():
 
 def known_case(case):
     """Narrow match of a mismatching correspondence case against the known findings."""
-    for f in findings():
-        m = f.get("match", {})
-        if m.get("kind") == "geometric_allzero_unweighted":
-            if (case.get("kind") == "rate" and case.get("fam") == 2 and not case.get("has_g") and case.get("err")
-                    and len(case.get("xs", [])) >= 1 and all(float.fromhex(x) == 0.0 for x in case["xs"])):
-                return f
+    # F-GEOM-ALLZERO was fixed in /repo (936dc43) and retired: its witness is now a regression case of
+    # corpus/C16/corpus.jsonl and a recurrence is a VIOLATION.  No correspondence-level finding is open.
     return None
 
 
